@@ -13,7 +13,7 @@ from ..ref import names
 from ..report import HarnessError
 
 RULE = ('patterns = all sequences of <=d segments over {literal, {v}, {v}-{w}, {v}_{w}, {v}~{w}, {v}.{w}, {a}-{b}~{c}} with an '
-        'optional trailing {v=**} or trailing literal, <=6 variables, plus "*"; x 9 resource sources; values = every class for '
+        'optional trailing {v=**} or trailing literal, <=6 variables, plus "*"; x 11 resource sources (+ an internal-mode library); values = every class for '
         'all variables + every single-variable deviation; near misses from the reference tokenizer; non-trivial = distinct '
         '(pattern, valuation) with >=1 variable')
 
@@ -54,7 +54,8 @@ def patterns(depth):
     return out
 
 
-SOURCES = ['msg-field', 'file-def', 'child-type', 'type-ref', 'dep-file-def', 'dep-msg-ref', 'lro-response', 'deep-ref', 'redeclared-common']
+SOURCES = ['msg-field', 'file-def', 'child-type', 'type-ref', 'dep-file-def', 'dep-msg-ref', 'lro-response', 'deep-ref', 'redeclared-common',
+           'common', 'in-resource-response', 'map-value']
 COMMON_TYPES = [('cloudresourcemanager.googleapis.com/Project', 'project'), ('cloudresourcemanager.googleapis.com/Organization', 'organization'),
                 ('cloudresourcemanager.googleapis.com/Folder', 'folder'), ('cloudbilling.googleapis.com/BillingAccount', 'billing_account'),
                 ('locations.googleapis.com/Location', 'location')]
@@ -70,23 +71,35 @@ def type_name(i):
     return s.capitalize() + 'Thing'
 
 
-def build(pats, chunk_id):
-    """One library: every pattern is a resource visible to service Res."""
+def build(pats, chunk_id, internal=False):
+    """One library: every pattern is a resource visible to service Res.  internal=True: selective generation in internal
+    mode with only Get listed, so GetHolder and Run are internal methods -- their resources stay visible to the service."""
     msgs, defs, cells = [], [], []
     dep_defs, dep_msgs = [], []
     lro_fields = [field('tag', 1, 'string')]
     rq_fields, rs_fields = [field('name', 1, 'string')], []
     deep_fields = [field('leaf', 1, 'string')]
+    holder_fields = [field('name', 1, 'string')]
+    map_fields, map_entries = [], []
     redeclared = list(COMMON_TYPES)
     for j, pat in enumerate(pats):
         i = chunk_id * 10000 + j
         tn = type_name(j)
         rtype = f'{DOM}/{tn}'
-        src = j % 9
+        src = j % 11
+        src = {9: 10, 10: 11}.get(src, src)       # 9 is the id of the built-in common resources
         helper = names.snake(tn)
         if src == 8 and (not redeclared or pat == '*'):
             src = 7
-        if src == 8:      # the API declares one of the five well-known resource types itself, with its own pattern
+        if src == 10:     # resource message embedded in a response that is itself a resource message
+            msgs.append(message(tn, [field('name', 1, 'string')], resource=(rtype, pat)))
+            holder_fields.append(field(f'f{j}', len(holder_fields) + 1, Q(tn)))
+        elif src == 11:   # resource message reachable only as the value type of a map field
+            msgs.append(message(tn, [field('name', 1, 'string')], resource=(rtype, pat)))
+            mf, me = desc.map_field(Q('GetRs'), f'm{j}', 500 + len(map_entries), 'string', Q(tn))
+            map_fields.append(mf)
+            map_entries.append(me)
+        elif src == 8:      # the API declares one of the five well-known resource types itself, with its own pattern
             rtype, helper = redeclared.pop(0)
             defs.append((rtype, pat))
             rq_fields.append(field(f'f{j}', len(rq_fields) + 1, 'string', child_ref=rtype))
@@ -120,17 +133,25 @@ def build(pats, chunk_id):
     msgs.append(message('Deep1', [field('d2', 1, Q('Deep2'), repeated=True)]))
     rq_fields.append(field('deep', len(rq_fields) + 1, Q('Deep1')))
     msgs.append(message('GetRq', rq_fields))
-    msgs.append(message('GetRs', rs_fields))
+    msgs.append(message('GetRs', rs_fields + map_fields, nested=map_entries))
+    msgs.append(message('Holder', holder_fields, resource=(f'{DOM}/Holder', 'holders/{holder}')))
     msgs.append(message('LroOut', lro_fields))
     msgs.append(message('LroMeta', [field('pct', 1, 'int32')]))
     from ..desc import OPERATION
     f = file('acme/res/v1/res.proto', P, messages=msgs, resource_defs=defs,
-             services=[service('Res', [method('Get', Q('GetRq'), Q('GetRs')),
+             services=[service('Res', [method('Get', Q('GetRq'), Q('GetRs')), method('GetHolder', Q('GetRq'), Q('Holder')),
                                        method('Run', Q('GetRq'), OPERATION, lro=('LroOut', 'LroMeta'))])])
     dep = file('acme/shared/v1/resources.proto', 'acme.shared.v1', messages=dep_msgs, resource_defs=dep_defs)
     std = desc.std_dep_names()
     dep.dependency.extend(std)
     f.dependency.extend(std + [dep.name])
+    if internal:
+        y = ('type: google.api.Service\nconfig_version: 3\nname: res.example.com\npublishing:\n  library_settings:\n'
+             f'  - version: {P}\n    python_settings:\n      common:\n        selective_gapic_generation:\n'
+             f'          generate_omitted_as_internal: true\n          methods:\n          - {P}.Res.Get\n')
+        req = request([f], 'transport=grpc,autogen-snippets=false,service-yaml=@svc.yaml@', extra_dep_files=[dep])
+        desc.gate(req)
+        return req, [dict(c, id='internal-mode/' + c['id']) for c in cells], {'svc.yaml': y}
     req = request([f], 'transport=grpc,autogen-snippets=false', extra_dep_files=[dep])
     desc.gate(req)
     return req, cells
@@ -156,6 +177,13 @@ def jobs_for(ctx, only=None):
         jobs.append(dict(id=f'res/{c}', req=req.SerializeToString(), probe='mc.probes.paths',
                          probe_args=dict(package=names.import_package(P), cells=cells + common, thorough=ctx.thorough,
                                          seed=ctx.seed), _cells=cells + common))
+    if pats and (not only or only.get('internal')):
+        # the same sources once more in a library whose other RPCs are internal methods
+        chunk = pats[1:60:2] if not only else pats
+        req, cells, of = build(chunk, 99, internal=True)
+        jobs.append(dict(id='res/internal-mode', req=req.SerializeToString(), opt_files=of, probe='mc.probes.paths',
+                         probe_args=dict(package=names.import_package(P), cells=cells, thorough=ctx.thorough, seed=ctx.seed,
+                                         client='BaseResClient'), _cells=cells))
     return jobs
 
 
@@ -186,7 +214,7 @@ def run(ctx, only=None):
         for s in obs['samples']:
             ctx.sample(s)
         for f in obs['failures']:
-            ctx.violation(f'{f["kind"]}|{f["cls"]}', f'{f["cell"]}: {f["kind"]}: {f["detail"]}', dict(patterns=[f['pattern']]))
+            ctx.violation(f'{f["kind"]}|{f["cls"]}', f'{f["cell"]}: {f["kind"]}: {f["detail"]}', dict(patterns=[f['pattern']], internal=str(f['cell']).startswith('internal-mode/')))
     if not only and calls < 20000 and not ctx.violations:
         raise HarnessError(f'C19 exploration collapsed: {calls} helper calls')
     ctx.extra['bound'] = f'pattern depth <= {4 if ctx.thorough else 3} segments'
